@@ -744,6 +744,18 @@ func genPipeCase(r *vlib.R, emit func(string)) int {
 		emit(fmt.Sprintf("pipe badvers %s %s %d %s", s.client, vlib.Pick(r, []string{"udp", "tcp"}), vlib.Pick(r, []int{1, 2, 255}), genOpts(r, spec, 90, s.ecs, false)))
 		count++
 	}
+	for i := 0; i < r.Intn(3); i++ {
+		// an rcode rejection by a handler ahead of / behind edns; the client's OPT often
+		// holds nothing but the subnet option
+		s := vlib.Pick(r, sites)
+		proto := vlib.Pick(r, []string{"udp", "tcp", "wudp", "rudp", "doh"})
+		copts := genClientOpts(r, spec, proto, 100, s.ecs, true)
+		if r.Chance(1, 2) && proto[0] != 'w' && proto[0] != 'r' {
+			copts = genECS(r, spec, s.ecs, false)
+		}
+		emit(fmt.Sprintf("pipe reject %s %s %s %s", s.client, proto, vlib.Pick(r, []string{"ahead", "ahead", "behind"}), copts))
+		count++
+	}
 	if pf > 0 {
 		emit("pipe age 9 10")
 		for i := 0; i < 5+r.Intn(5); i++ {
